@@ -250,8 +250,8 @@ func (c *client) onConnClosed(conn internalConn) {
 		c.disconnected_.Set()
 	}
 
-	// Maybe auto-connect
-	if c.mode == ClientMode_AutoConnect {
+	// Maybe auto-connect, a closed client does not connect anymore
+	if c.mode == ClientMode_AutoConnect && !c.closed_.IsSet() {
 		c.connect()
 	}
 }
@@ -262,7 +262,7 @@ func (c *client) onConnChannelsReached(conn internalConn) {
 	defer c.mu.Unlock()
 
 	max := c.options.ClientMaxConns
-	if max <= 0 {
+	if max <= 0 || c.closed_.IsSet() {
 		return
 	}
 
